@@ -23,8 +23,10 @@ def close_sets(positions, best, n):
         allc = set(range(nc))
         return allc, allc
     dk = np.sort(d)[n - 1]
-    must = set(np.nonzero(d < dk - 1e-9 * max(1., dk))[0].tolist())
-    may = set(np.nonzero(d <= dk + 1e-9 * max(1., dk))[0].tolist())
+    # (relative to the distances themselves: probes may be described in metres)
+    scale = max(float(d.max()), 1e-300)
+    must = set(np.nonzero(d < dk - 1e-9 * scale)[0].tolist())
+    may = set(np.nonzero(d <= dk + 1e-9 * scale)[0].tolist())
     return must, may
 
 
